@@ -51,7 +51,7 @@ impl Property for C09 {
         "C09"
     }
     fn rule(&self) -> String {
-        "Generated: clean tagged token streams (whole vocabulary words of every class, speller phrases, ordinals next to cardinals, linking words, ordinary words, conjunction/separator words, period vs comma and other punctuation, numbers at both ends) with two thresholds drawn from a pool {0, 10, 3, 100, +inf, NaN, -1, -inf, 7, 1, 2, 1e300, subnormal, 0.5} or set to the exact value of one of the text's numbers +-1. Oracle: (a) occ(t) is a sub-list of occ(0) (same span, text, value, flag); (b) t1 <= t2 => occ(t2) sub-list of occ(t1); (c) t <= 0 or NaN => occ(t) == occ(0); (d) every number of occ(0) that is not small at t (small = one-character text or ordinal, value < t) is in occ(t); (e) reference policy model: a small number is rewritten iff the recognised number directly before or after it is of the same kind (cardinal/ordinal) and the tokens between them are only whitespace, bare hyphens, non-alphabetic tokens other than a lone period, or words of the language's linking vocabulary; an ordinary word or a lone period breaks; the conjunction word counts as a linking word; the model abstains (counted) when the gap contains the decimal-separator word or a number-like word outside every occurrence; (f) fixed relations: three single digits in a row (comma- or space-separated) are all rewritten at every threshold; 'w d w' with a single digit d: untouched iff d < t. Non-trivial = distinct streams with a small number whose fate is decided by a neighbour (released by a neighbour / dropped by a breaker / dropped by a kind change), or value == threshold.".into()
+        "Generated: clean tagged token streams (whole vocabulary words of every class, speller phrases, ordinals next to cardinals, linking words, ordinary words, conjunction/separator words, period vs comma and other punctuation, numbers at both ends) with two thresholds drawn from a pool {0, 10, 3, 100, +inf, NaN, -1, -inf, 7, 1, 2, 1e300, subnormal, 0.5} or set to the exact value of one of the text's numbers +-1. Oracle: (a) occ(t) is a sub-list of occ(0) (same span, text, value, flag); (b) t1 <= t2 => occ(t2) sub-list of occ(t1); (c) t <= 0 or NaN => occ(t) == occ(0); (d) every number of occ(0) that is not small at t (small = one-character text or ordinal, value < t) is in occ(t); (e) reference policy model: a small number is rewritten iff the recognised number directly before or after it is of the same kind (cardinal/ordinal) and the tokens between them are only whitespace, bare hyphens, non-alphabetic tokens other than a lone period, or words of the language's linking vocabulary; an ordinary word or a lone period breaks; the conjunction word counts as a linking word; the model abstains (counted) when the gap contains the decimal-separator word or a number-like word outside every occurrence; (e') the same verdicts on a caller-built stream in which ignorable / ordinary tokens between the numbers are flagged 'not a number part'; (f) fixed relations: two digits separated by 1..257 commas or repetitions of a linking word are both rewritten at threshold 10; three single digits in a row (comma- or space-separated) are all rewritten at every threshold; 'w d w' with a single digit d: untouched iff d < t. Non-trivial = distinct streams with a small number whose fate is decided by a neighbour (released by a neighbour / dropped by a breaker / dropped by a kind change), or value == threshold.".into()
     }
     fn assumptions(&self) -> Vec<String> {
         vec![
@@ -78,6 +78,19 @@ impl Property for C09 {
             let p = (i / 70) as u16;
             let sel = ThSel { kind: 0, i: ((p as u32 * 65536 + 65535) / npool as u32).min(65535) as u16, delta: 0 };
             if !emit(Case { lang, shape: "lone".into(), sent: Sentence { lead: String::new(), items: vec![] }, th: vec![sel], digits: vec![d], comma: false }) {
+                return;
+            }
+        }
+        // gap lengths around powers of two and round sizes
+        let gaps: [usize; 22] = [1, 2, 3, 7, 8, 9, 15, 16, 17, 31, 32, 33, 63, 64, 65, 100, 127, 128, 129, 255, 256, 257];
+        for i in shard_range(7 * gaps.len() as u64 * 2 * 3, shard, nshards) {
+            let lang = LANGS[(i % 7) as usize].to_string();
+            let g = gaps[((i / 7) % gaps.len() as u64) as usize];
+            let comma = (i / (7 * gaps.len() as u64)) % 2 == 0;
+            let w = (i / (14 * gaps.len() as u64)) as u8;
+            let pos = |x: f64| THRESHOLDS.iter().position(|t| t.to_bits() == x.to_bits()).unwrap_or(0) as u32;
+            let sel = ThSel { kind: 0, i: ((pos(10.0) * 65536 + 32768) / npool as u32) as u16, delta: 0 };
+            if !emit(Case { lang, shape: "gap".into(), sent: Sentence { lead: String::new(), items: vec![] }, th: vec![sel], digits: vec![w, w.wrapping_mul(5).wrapping_add(1), (g / 8) as u8, (g % 8) as u8], comma }) {
                 return;
             }
         }
@@ -121,6 +134,29 @@ impl Property for C09 {
                 }
                 obs.label("fixed:three-digits-in-a-row");
                 obs.nontrivial(&(l, &text, t.to_bits()));
+                return Ok(());
+            }
+            "gap" => {
+                // two single digits separated by N ignorable tokens (commas or one linking word repeated):
+                // however long the run, they stay neighbours and are rewritten at every threshold
+                let t = resolve(&c.th[0], &[]);
+                let n = c.digits.get(2).copied().unwrap_or(1) as usize * 8 + c.digits.get(3).copied().unwrap_or(0) as usize;
+                let filler: String = if c.comma { ", ".repeat(n.max(1)) } else { format!(" {}", v.linking[c.digits[1] as usize % v.linking.len()]).repeat(n.max(1)) + " " };
+                let (d1, d2) = (2 + c.digits[0] % 7, 3 + c.digits[1] % 6);
+                let text = format!("{}{}{}", digit(d1), filler, digit(d2));
+                let out = replace_numbers_in_text(&text, lg, t);
+                let want = format!("{}{}{}", d1, filler, d2);
+                // the linking word may itself be a number word in this language (pt `um`): then the oracle does not apply
+                if !c.comma && text2num::text2digits(v.linking[c.digits[1] as usize % v.linking.len()], lg).is_ok() {
+                    obs.exclude("linking-word-is-a-number-word");
+                    return Ok(());
+                }
+                if out != want {
+                    let cut = |x: &str| if x.len() > 160 { format!("{}…{}", &x[..60], &x[x.len() - 60..]) } else { x.to_string() };
+                    return Err(format!("[{}] two small numbers separated only by {} ignorable tokens must both be rewritten at threshold {:?}: {:?} -> {:?}", l, n.max(1), t, cut(&text), cut(&out)));
+                }
+                obs.label("fixed:long-gap-of-ignorable-tokens");
+                obs.nontrivial(&(l, n, c.comma, t.to_bits()));
                 return Ok(());
             }
             "lone" => {
@@ -276,6 +312,52 @@ impl Property for C09 {
                         }
                     }
                 }
+            }
+        }
+        // the same policy on a caller-built stream in which some tokens BETWEEN the numbers declare themselves
+        // 'not a number part': a flagged linking word / punctuation token is still ignorable, a flagged
+        // ordinary word still isolates; recognition is unchanged because no token of a number is flagged
+        if !o0.is_empty() {
+            let mut stream: Vec<Tk> = toks.iter().enumerate().map(|(i, x)| Tk::new(i, &x.text)).collect();
+            let mut inside = vec![false; stream.len()];
+            for oc in &o0 {
+                for k in oc.start..oc.end.min(stream.len()) {
+                    inside[k] = true;
+                }
+            }
+            let mut flagged = 0;
+            // only streams whose gap tokens are all plainly ignorable or plainly ordinary: a conjunction or
+            // separator word (a potential part of a number) changes role with what surrounds it
+            let clean_gaps = (0..stream.len()).all(|k| {
+                let lo = stream[k].lower.as_str();
+                inside[k] || scanner_skips(&stream[k].text) || !has_alpha(&stream[k].text) || (!v.conj_alts.contains(&lo) && lo != v.sep && (lg.is_linking(lo) || filler_words.contains(lo)))
+            });
+            for (k, tk) in stream.iter_mut().enumerate() {
+                if !clean_gaps {
+                    break;
+                }
+                // flag roughly every second gap token that the scanner examines and that is not a number-like word
+                let lo = tk.lower.clone();
+                let plain_gap = !inside[k] && !scanner_skips(&tk.text) && (!has_alpha(&tk.text) || lg.is_linking(&lo) || filler_words.contains(&lo));
+                // (the conjunction word is not flagged: where it is not a published linking word it is ignorable only
+                // as a potential part of a number, which a 'not a number part' flag rules out)
+                if plain_gap && (k + tk.text.len()) % 2 == 0 {
+                    tk.nan = true;
+                    flagged += 1;
+                }
+                // carry over the library's own annotation (French neuf, English o)
+                if toks[k].nan {
+                    tk.nan = true;
+                }
+            }
+            if flagged > 0 {
+                for (k, &t) in ts.iter().enumerate() {
+                    let got = occs(text2num::find_numbers(stream.iter(), lg, t));
+                    if got != occs_at[k] {
+                        return Err(format!("[{}] {:?} at threshold {:?}: flagging {} ignorable / ordinary tokens between the numbers as 'not a number part' changed which numbers are rewritten\n plain   {}\n flagged {}", l, text, t, flagged, show(&occs_at[k]), show(&got)));
+                    }
+                }
+                obs.label("policy-with-flagged-gap-tokens");
             }
         }
         // (b)
